@@ -146,6 +146,9 @@ def read_scn_file(path):
     return scns
 
 
+DIAG_LINE = re.compile(r'((?:diags=\[|;)(?:[0-9a-f]+|-|\.)),-?\d+,')
+
+
 def compare(prop, scn, il, ml):
     """correspondence on the property's projection; returns None or a description"""
     proj = getattr(prop, 'project', None)
@@ -162,6 +165,10 @@ def compare(prop, scn, il, ml):
         a, b = ib[k], mb[k]
         if proj:
             a, b = proj(a), proj(b)
+        if not getattr(prop, 'COMPARE_LINES', False):
+            # line numbers inside diagnostics are the subject of C06 / C08 / C13 only; elsewhere a disagreement about
+            # them alone says nothing about the property (file names and messages are still compared)
+            a, b = DIAG_LINE.sub(r'\1,', a), DIAG_LINE.sub(r'\1,', b)
         if a != b:
             return 'line %d differs:\n  impl : %s\n  model: %s' % (k + 1, ib[k][:600], mb[k][:600])
     if not common.status_equiv(it, mt):
@@ -189,7 +196,9 @@ def evaluate(prop, scns, variant, want_model=True):
         if oracle:
             res = oracle(s, il or [], ml or []) if oracle.__code__.co_argcount >= 3 else oracle(s, il or [])
             for key, text in res:
-                problems.append(dict(kind='oracle', key=key, scn=s, text=text))
+                # keys starting with `tie:` report a disagreement between the library and a proved model (not a
+                # violation of the property by itself): they are handled like correspondence failures
+                problems.append(dict(kind='correspondence' if key.startswith('tie:') else 'oracle', key=key, scn=s, text=text))
         if want_model and not s.meta.get('impl_only'):
             d = compare(prop, s, il, ml)
             if d:
